@@ -174,7 +174,7 @@ PLAN = {
     "C18": {
         "rule": "attribute table: all 4032 field tuples x every constructor order (<=24) + closure under every single constructor application + invalid arguments; "
                 "dispatch_get_global_queue: identifiers x 67 flag values, full cross product; distinct = distinct attribute objects + distinct global queues. "
-                "Scheduled half (harness spec): 9 hierarchy shapes (serial/concurrent levels over a serial queue, a workloop or the main queue) x every key placement x 7 submission paths x assertion modes (770 programs), each under every schedule with <=k preemptions; "
+                "Scheduled half (harness spec): 10 hierarchy shapes (serial/concurrent levels over a serial queue, a workloop or the main queue; a concurrent queue on the default target) x every key placement x 8 submission paths (incl. a suspended queue resumed with items queued) x assertion modes (928 programs), each under every schedule with <=k preemptions; "
                 "dispatch_get_specific must return the nearest level's value, dispatch_assert_queue must hold for every queue of the chain and dispatch_assert_queue_not / dispatch_assert_queue on the wrong queue must trap; harness specrace: 5 scenarios of 2 threads setting / replacing / removing / reading keys of one queue "
                 "(lazy allocation of the key list, destructors exactly once with the right value)",
         "bounds": {"quick": "4032 tuples x all orders, 475776 closure steps, 66601 identifiers x 67 flags; behavioural check of concurrency/inactive on 12 representative queues; spec programs k<=1; specrace k<=1 (k=0 for the two largest)",
